@@ -113,7 +113,14 @@ class TorchNNPureFunction(PureFunction):
 
     def _get_all_obj_params_init(self) -> List:
         # get the tensors in the torch.nn.Module to be used as params
-        named_params = list(self.obj.named_parameters())
+        # (every name under which a parameter is registered: named_parameters()
+        # reports a parameter that is shared between several names only once,
+        # the other names would then neither be substituted nor restored)
+        named_params = []
+        for modname, mod in self.obj.named_modules(remove_duplicate=False):
+            for pname, p in mod._parameters.items():
+                if p is not None:
+                    named_params.append(((modname + "." if modname else "") + pname, p))
         if len(named_params) == 0:
             paramnames: List[str] = []
             obj_params: List[Union[torch.Tensor, torch.nn.Parameter]] = []
